@@ -1355,8 +1355,10 @@ def history_oracle(p, R):
             if not p.in_bounds(x):
                 fails.append(("bounds", "call %d: path state %d = %r is outside the space bounds" % (i, j, x)))
                 break
-        gd = p.dist(states[-1], p.goal)
-        if not approx and not gd < thr:
+        gd = p.goal_dist(states[-1])
+        if not approx and not gd < thr and not (gd == 0.0 and p.planner == "RRTConnect"):
+            # (RRTConnect ends exactly AT a sampled goal state and never asks isSatisfied: accepted as "inside", see the
+            # reading decision on zero thresholds)
             fails.append(("goal", "call %d: exact solution ends at goal distance %r, threshold in force %r" % (i, gd, thr)))
         if approx and not close(diff, gd):
             fails.append(("difference", "call %d: approximate solution registered difference %r, goal distance at the last state is %r" % (i, diff, gd)))
@@ -1435,6 +1437,118 @@ def history_one(ck, hbin, p):
     return what, impl, mod, R, fails, obs
 
 
+def gen_history_c(r):
+    """one RRTConnect object + one problem definition: solve (interrupted at any termination count), resumed on the kept
+    trees, clear, addStartState, setRange, clearSolutionPaths (Model/RRTConnectHistory.lean `Op`); GoalStates goals in half
+    of the histories so that goals are re-sampled through the kept PlannerInputStates counters."""
+    if r.below(2):
+        env = gen_multigoal(r, r.choice(["rv2", "rv3"]))
+    else:
+        env = gen_env(r, r.choice(["rv2", "rv2", "rv3"]), nboxes=r.below(7))
+    ext = extent(env)
+
+    def some_state(kind):
+        for _ in range(100):
+            x = rand_state(r, "rv", env.lo, env.hi)
+            if kind == "valid" and env.valid(x):
+                return x
+            if kind == "invalid" and env.boxes and env.collides(x):
+                return x
+        return rand_state(r, "rv", env.lo, env.hi)
+    if r.below(6) == 0:
+        env.starts = [some_state("invalid")]
+    ops = []
+    for _ in range(3 + r.below(8)):
+        k = r.below(12)
+        if k == 5:
+            ops.append("clear")
+        elif k == 6:
+            ops.append("addstart:" + ",".join(map(f2b, some_state(r.choice(["valid", "valid", "invalid"])))))
+        elif k == 7:
+            ops.append("range:" + f2b(r.choice([0.02 * ext, 0.2 * ext, 2.0 * ext])))
+        elif k == 8:
+            ops.append("clearsol")
+        else:
+            ops.append("solve:%d" % r.choice([0, 1, 2, 5, 30, 120, 400]))
+    if not ops[-1].startswith("solve"):
+        ops.append("solve:%d" % r.choice([5, 60, 300]))
+    return env.clone(planner="RRTConnect", mode="history", seed=r.below(100000), budget=0, pollcap=0, hist=ops,
+                     rng=r.choice([None, None, 0.05 * ext, 0.4 * ext]), interm=r.below(2), tag="history:rrtconnect")
+
+
+def history_driver_script_c(p, R):
+    d = ["rrt %d" % len(p.lo), "bounds " + " ".join(map(f2b, p.lo)) + " " + " ".join(map(f2b, p.hi)), p.boxes_line(),
+         "res " + f2b(p.res)]
+    if p.rng is not None:
+        d.append("range " + f2b(p.rng))
+    d.append("interm %d" % (p.interm or 0))
+    d += ["goal " + " ".join(map(f2b, g)) for g in p.all_goals()]
+    d.append("thr " + f2b(p.thr))
+    for s in p.starts:
+        d.append("start " + " ".join(map(f2b, s)))
+    d.append("hcinit")
+    for i, tok in enumerate(p.hist):
+        op, _, arg = tok.partition(":")
+        if op == "solve":
+            d += [l for l in R["H"].get(i, []) if l.startswith("draw ")]
+            d += ["hcsolve " + arg, "hctrees", "hctreeg", "hcpath", "hcpdef"]
+        elif op == "clear":
+            d.append("hcclear")
+        elif op == "addstart":
+            d.append("hcaddstart " + " ".join(arg.split(",")))
+        elif op == "range":
+            d.append("hcrange " + arg)
+        elif op == "clearsol":
+            d.append("hcclearsol")
+    return d
+
+
+def history_one_c(ck, hbin, p):
+    """RRTConnect twin of history_one"""
+    R = run_problem(ck, hbin, p)
+    if not R.get("done") or R.get("rc") != 0 or R.get("exception") or R.get("badop"):
+        return "harness failed: rc=%s %s %s %s" % (R.get("rc"), R.get("exception"), R.get("badop"), R.get("stderr", "")[-300:]), [], [], R, [], {}
+    fails, obs = history_oracle(p, R)
+    model, rc, err = ck.run_bin(ck.driver(DRIVER), history_driver_script_c(p, R))
+    if rc != 0 or model is None or any(m == "bad-op" for m in model):
+        return "driver failed rc=%s" % rc, [], model or [], R, fails, obs
+    out = [m for m in model if m != "ok"]
+    impl, mod, what, k = [], [], None, 0
+    for i, tok in enumerate(p.hist):
+        if not tok.startswith("solve"):
+            continue
+        H = {l.split()[0].split("=")[0]: l for l in R["H"].get(i, []) if not l.startswith("draw ")}
+        if k + 5 > len(out):
+            what = "driver produced too few lines"
+            break
+        m = out[k:k + 5]
+        k += 5
+        d = kv(m[0].split())
+        misc = kv(H.get("misc", "").split())
+        pdl = kv(H.get("pdef", "").split())
+        I = [H.get("status", ""), "nstart=%s ngoal=%s starttree=%s range=%s" % tuple(misc.get(x) for x in ("nstart", "ngoal", "starttree", "range")),
+             H.get("treeS", ""), H.get("treeG", ""), H.get("path", ""),
+             "pdef count=%s approx=%s diff=%s sols=%s" % tuple(pdl.get(x) for x in ("count", "approx", "diff", "sols"))]
+        M = ["status=%s bool=%s added=%s" % (d["status"], d["bool"], d["added"]),
+             "nstart=%s ngoal=%s starttree=%s range=%s" % tuple(d.get(x) for x in ("nstart", "ngoal", "starttree", "range")),
+             m[1], m[2], m[3], m[4]]
+        impl += I
+        mod += M
+        if what is None:
+            if d["fuelout"] != "0":
+                what = "call %d (%s): model ran out of connect fuel" % (i, tok)
+            elif d["short"] != "0":
+                what = "call %d (%s): the recorded draws ran out before the model's termination condition fired" % (i, tok)
+            elif d["unused"] != "0":
+                what = "call %d (%s): model stopped early, %s recorded draws unused" % (i, tok, d["unused"])
+            else:
+                for name, a, b in zip(["status", "counters / parameters", "start tree", "goal tree", "path", "problem definition"], I, M):
+                    if a != b:
+                        what = "call %d (%s): %s differs" % (i, tok, name)
+                        break
+    return what, impl, mod, R, fails, obs
+
+
 def history_scale(p, mult):
     ops = []
     for t in p.hist:
@@ -1462,12 +1576,12 @@ def history_report_fail(ck, hbin, p, fails):
     f = [x for x in history_oracle(q, R)[0] if x[0] == clause] if R.get("done") else []
     if not f:
         q, f = p, fails
-    rec = {"engine": "planners", "planner": "RRT", "clause": f[0][0], "class": "history", "space": p.kind,
+    rec = {"engine": "planners", "planner": p.planner, "clause": f[0][0], "class": "history", "space": p.kind,
            "interm": p.interm or 0, "what": "%s (history %s): %s" % (f[0][0], " ".join(q.hist), f[0][1])}
     new = ck.report(rec, script=q.script(), expected="pathIsReal for every solve() of the history: clause '%s' holds" % f[0][0],
                     observed={"history": q.hist, "detail": f[0][1]}, engine="planners")
     if new:
-        ck.log("VIOLATION RRT %s [history %s seed=%d]: %s" % (f[0][0], " ".join(q.hist), p.seed, f[0][1][:200]))
+        ck.log("VIOLATION %s %s [history %s seed=%d]: %s" % (p.planner, f[0][0], " ".join(q.hist), p.seed, f[0][1][:200]))
 
 
 def history_process(ck, hbin, hjobs, hres):
@@ -1477,6 +1591,7 @@ def history_process(ck, hbin, hjobs, hres):
         nsol = obs.get("history-paths-checked", 0)
         ck.case(p.key(), nsol >= 2)
         ck.count("history-runs")
+        ck.count("history-runs:" + p.planner)
         ck.count("history-calls", len(p.hist))
         for t in p.hist:
             ck.count("history-op:" + t.split(":")[0])
@@ -1974,6 +2089,9 @@ def run(ck):
     hr = ck.rng.fork("history")
     hjobs = [gen_history(hr) for _ in range(150 if ck.tier == "quick" else 2500)] if ck.lean_ok else []
     hfut = [ex.submit(history_one, ck, hbin, p) for p in hjobs]
+    hrc = ck.rng.fork("history-c")
+    hcjobs = [gen_history_c(hrc) for _ in range(100 if ck.tier == "quick" else 1500)] if ck.lean_ok else []
+    hcfut = [ex.submit(history_one_c, ck, hbin, p) for p in hcjobs]
 
     # ---- corpus first
     for name, lines, tag in corpus():
@@ -1982,7 +2100,7 @@ def run(ck):
         if p.mode == "history":
             ck.count("corpus-history")
             if ck.lean_ok:
-                history_process(ck, hbin, [p], [history_one(ck, hbin, p)])
+                history_process(ck, hbin, [p], [(history_one_c if p.planner == "RRTConnect" else history_one)(ck, hbin, p)])
         elif p.mode == "lockstep":
             ok, what, impl, mod, R = lockstep_one(ck, hbin, p)
             ck.traces_validated += 1
@@ -2048,6 +2166,7 @@ def run(ck):
     # ---- (a') histories of one RRT object: lock-step with Model/RRTHistory.lean + the spec oracle call by call
     if ck.lean_ok:
         history_process(ck, hbin, hjobs, [f.result() for f in hfut])
+        history_process(ck, hbin, hcjobs, [f.result() for f in hcfut])
 
     # ---- (b) all planners through the spec oracle
     results = [f.result() for f in pfut]
@@ -2070,7 +2189,7 @@ def replay(ck, data):
     p.tag = (data.get("record") or {}).get("class", "replay")
     if p.mode == "history":
         ck.lean_build([DRIVER])
-        what, impl, mod, R, fails, obs = history_one(ck, hbin, p)
+        what, impl, mod, R, fails, obs = (history_one_c if p.planner == "RRTConnect" else history_one)(ck, hbin, p)
         for a, b in zip(impl, mod):
             if a != b:
                 print("impl : %s\nmodel: %s" % (a[:400], b[:400]))
